@@ -484,6 +484,59 @@ def steps_to_coq(steps: list[Step]) -> str:
     return "".join(out)
 
 
+
+
+# --------------------------------------------------------------------------- onnx.checker in a worker process
+# (the C++ checker / shape inference can crash the interpreter on models the passes produce; a crash must be a
+#  verdict "not accepted", never the death of the check)
+
+_WORKER_CODE = r"""
+import sys, struct, onnx
+inp, out = sys.stdin.buffer, sys.stdout.buffer
+while True:
+    h = inp.read(4)
+    if len(h) < 4:
+        break
+    n = struct.unpack("<I", h)[0]
+    data = inp.read(n)
+    try:
+        onnx.checker.check_model(onnx.ModelProto.FromString(data), full_check=True)
+        msg = b""
+    except Exception as e:
+        msg = (str(e)[:400] or type(e).__name__).encode("utf-8", "replace")
+    out.write(struct.pack("<I", len(msg)) + msg)
+    out.flush()
+"""
+_worker = None
+
+
+def checker_verdict(mp) -> str | None:
+    """None = accepted; otherwise the rejection message ('CRASH ...' when the checker process died)."""
+    global _worker
+    import subprocess
+    import sys
+    data = mp.SerializeToString()
+    for attempt in range(2):
+        if _worker is None or _worker.poll() is not None:
+            _worker = subprocess.Popen([sys.executable, "-c", _WORKER_CODE], stdin=subprocess.PIPE, stdout=subprocess.PIPE,
+                                       stderr=subprocess.DEVNULL)
+        try:
+            _worker.stdin.write(struct.pack("<I", len(data)) + data)
+            _worker.stdin.flush()
+            h = _worker.stdout.read(4)
+            if len(h) < 4:
+                raise EOFError
+            n = struct.unpack("<I", h)[0]
+            msg = _worker.stdout.read(n)
+            return msg.decode("utf-8", "replace") if n else None
+        except (EOFError, BrokenPipeError, OSError):
+            rc = _worker.poll()
+            _worker = None
+            if attempt == 0 and rc is None:
+                continue
+            return f"CRASH onnx.checker process died (exit {rc}) on this model"
+    return "CRASH onnx.checker process died"
+
 # --------------------------------------------------------------------------- oracle
 
 def io_signature(mp):
@@ -499,10 +552,9 @@ def oracle(spec: dict, passes: list[str], seed: int, protos=None, raised=None, u
     if protos is None:
         protos, _, raised = run_case(spec, passes, conv_steps=False)
     mp0 = protos[0]
-    try:
-        onnx.checker.check_model(mp0, full_check=True)
-    except Exception as e:  # noqa: BLE001
-        info["invalid"] = "checker:" + str(e)[:120]
+    v0 = checker_verdict(mp0)
+    if v0 is not None:
+        info["invalid"] = "checker:" + v0[:120]
         return [], info
     try:
         vals = G.feeds_for(mp0, seed)
@@ -519,10 +571,9 @@ def oracle(spec: dict, passes: list[str], seed: int, protos=None, raised=None, u
     sig0 = io_signature(mp0)
     for i, mp in enumerate(protos[1:]):
         name = passes[i]
-        try:
-            onnx.checker.check_model(mp, full_check=True)
-        except Exception as e:  # noqa: BLE001
-            bad.append(f"checker-rejects-after: step {i} {name}: {str(e)[:200]}")
+        verdict = checker_verdict(mp)
+        if verdict is not None:
+            bad.append(f"checker-rejects-after: step {i} {name}: {verdict[:200]}")
             break
         sig = io_signature(mp)
         if sig != sig0:
@@ -682,7 +733,8 @@ def classify(spec: dict, passes: list[str], failure: str) -> str | None:
             return "identity-elim-outer-scope-output"
         if kind == "pass-raised" and "already an output of a different graph" in failure:
             return "identity-elim-outer-scope-output"
-    if step_pass == "addinit" and kind == "checker-rejects-after" and "inputs but" in failure and any(True for _ in _subgraphs(spec)):
+    if step_pass == "addinit" and kind == "checker-rejects-after" and ("inputs but" in failure or "CRASH" in failure) \
+            and any(True for _ in _subgraphs(spec)):
         return "addinit-subgraph-initializers-become-inputs"
     if step_pass == "liftall" and _has_string_const(spec):
         if kind == "pass-raised" and "UnicodeEncodeError" in failure:
@@ -717,10 +769,8 @@ def classify(spec, passes, failure):  # noqa: F811
 # --------------------------------------------------------------------------- shrinking
 
 def _valid(spec) -> bool:
-    import onnx
     try:
-        onnx.checker.check_model(G.build(spec), full_check=True)
-        return True
+        return checker_verdict(G.build(spec)) is None
     except Exception:  # noqa: BLE001
         return False
 
